@@ -12,7 +12,6 @@ import (
 	"bytes"
 	"encoding/hex"
 	"encoding/json"
-	"fmt"
 	"sort"
 	"strings"
 )
@@ -77,11 +76,10 @@ func (o op) String() string {
 // ---------------------------------------------------------------- model
 
 type pendEntry struct {
-	del          bool
-	val          []byte
-	spec         bool // tracking was (specified to be) enabled when the op was issued and ever since
-	acrossRepeat bool // a repeated SetPending(true) was issued after this op
-	viaReplay    bool // the op reached this batch through Replay of another batch
+	del       bool
+	val       []byte
+	spec      bool // tracking was enabled when the op was issued and no SetPending/Write/Reset call came since
+	viaReplay bool // the op reached this batch through Replay of another batch
 }
 
 type bop struct {
@@ -119,11 +117,11 @@ func newModel() *model {
 
 func (m *model) set(k, v []byte, how string) {
 	m.kv[string(k)] = append([]byte{}, v...)
-	m.prov[string(k)] = how + "-put"
+	m.prov[string(k)] = how + "put"
 }
 func (m *model) del(k []byte, how string) {
 	delete(m.kv, string(k))
-	m.prov[string(k)] = how + "-delete"
+	m.prov[string(k)] = how + "delete"
 }
 func (m *model) provOf(k string) string {
 	if p, ok := m.prov[k]; ok {
@@ -219,9 +217,11 @@ func netEffect(ops []bop) string {
 
 // expectation is what the model says about one operation.
 type expectation struct {
-	want  string // canonical result, or resSkip
-	ctx   string // signature context (stable, derived from the model only)
-	class string // coverage class
+	want string // canonical result, or resSkip
+	ctx  string // signature context (stable, derived from the model only)
+	// ctxDetail refines ctx for backends that implement pending tracking
+	ctxDetail string
+	class     string // coverage class
 	// value-size sanity for batch mutations (checked by the harness against the
 	// backend's own previous ValueSize): sizeZero = must be 0 now; sizeGrow =
 	// must be strictly larger than before; otherwise must not be smaller.
@@ -234,11 +234,11 @@ type expectation struct {
 func (m *model) apply(o op) expectation {
 	switch o.Kind {
 	case "put":
-		m.set(o.K, o.V, "put")
+		m.set(o.K, o.V, "")
 		return expectation{want: resOK, ctx: "direct", class: "put"}
 	case "del":
 		_, present := m.kv[string(o.K)]
-		m.del(o.K, "delete")
+		m.del(o.K, "")
 		if present {
 			return expectation{want: resOK, ctx: "present-key", class: "delete:present"}
 		}
@@ -287,12 +287,11 @@ func (m *model) apply(o op) expectation {
 		b := m.b[o.Slot]
 		if o.Flag {
 			if b.tracking {
-				// idempotent re-enable: the batch still has tracking enabled, so by
-				// the statement it still reports all of its uncommitted operations.
+				// re-enabling: the statement does not determine whether the view is
+				// kept or restarted, so operations issued before this call become
+				// unspecified (either answer is accepted).
 				for _, e := range b.pend {
-					if e.spec {
-						e.acrossRepeat = true
-					}
+					e.spec = false
 				}
 			} else {
 				// enabling mid-batch: whether earlier operations are reported is not
@@ -324,14 +323,16 @@ func (m *model) apply(o op) expectation {
 		if e.del {
 			ctx, class = "after-batch-delete", "getpending:delete"
 		}
+		// ctxDetail is appended to the signature only for a backend that does
+		// implement pending tracking (see probeTracksPending): for a backend whose
+		// GetPending never reports anything the plain context already names the
+		// deviation and the detail would only multiply signatures.
+		detail := ""
 		if e.viaReplay {
-			ctx += "+via-replay"
+			detail = "+via-replay"
+			class += "+via-replay"
 		}
-		if e.acrossRepeat {
-			ctx += "+repeated-setpending"
-			class += "+repeated-setpending"
-		}
-		return expectation{want: resPending(e.del, e.val), ctx: ctx, class: class}
+		return expectation{want: resPending(e.del, e.val), ctx: ctx, ctxDetail: detail, class: class}
 	case "bwrite":
 		b := m.b[o.Slot]
 		ctx, class := "first-write", "batch:write"
@@ -343,9 +344,9 @@ func (m *model) apply(o op) expectation {
 		}
 		for _, x := range b.ops {
 			if x.del {
-				m.del(x.k, "batch-write")
+				m.del(x.k, "batch-write-")
 			} else {
-				m.set(x.k, x.v, "batch-write")
+				m.set(x.k, x.v, "batch-write-")
 			}
 		}
 		b.written = true
@@ -366,20 +367,19 @@ func (m *model) apply(o op) expectation {
 	case "breplay-db":
 		for _, x := range m.b[o.Slot].ops {
 			if x.del {
-				m.del(x.k, "replay-into-db")
+				m.del(x.k, "replay-into-db-")
 			} else {
-				m.set(x.k, x.v, "replay-into-db")
+				m.set(x.k, x.v, "replay-into-db-")
 			}
 		}
 		return expectation{want: resOK, ctx: "into-db", class: "replay:into-db"}
 	case "breplay-rec":
 		return expectation{want: "ok " + netEffect(m.b[o.Slot].ops), ctx: "net-effect", class: "replay:into-recorder"}
 	case "breplay-fail":
-		// the destination writer returns an error at op index FailAt
-		if o.FailAt < len(m.b[o.Slot].ops) {
-			return expectation{want: "error-reported", ctx: "destination-writer-fails", class: "replay:failing-writer"}
-		}
-		return expectation{want: "no-error", ctx: "destination-writer-ok", class: "replay:failing-writer-not-reached"}
+		// The destination writer returns an error at op index FailAt. Whether
+		// Replay propagates that error is not part of the statement: nothing is
+		// compared (only a panic would be reported).
+		return expectation{want: resSkip, ctx: "destination-writer-fails", class: "replay:failing-writer"}
 	}
 	panic("unknown op " + o.Kind)
 }
@@ -416,5 +416,3 @@ func iterDiffContext(m *model, want []kvPair, got []kvPair) string {
 	}
 	return "same"
 }
-
-func fmtPairs(ps []kvPair) string { return fmt.Sprint(resIter(ps)) }
